@@ -60,12 +60,12 @@ def spec_sub(c):
 def src_strides(c):
     e = c.ext; r = len(e)
     if c.kind == 'left': return [C.prod(e[:k]) for k in range(r)]
-    if c.kind == 'right': return [C.prod(e[k + 1:]) for k in range(r)]
+    if c.kind in ('right', 'ushift'): return [C.prod(e[k + 1:]) for k in range(r)]
     return list(c.str)
 
 def src_span(c):
     if any(x == 0 for x in c.ext): return 0
-    if c.kind in ('left', 'right'): return C.prod(c.ext)
+    if c.kind in ('left', 'right', 'ushift'): return C.prod(c.ext)
     return 1 + sum((e - 1) * s for e, s in zip(c.ext, c.str))
 
 def spec_alias(c, cap=4096):
@@ -141,9 +141,9 @@ def gen_cases(seed, tier, insts):
             for sl in combos:
                 st = chain_strides(rnd, ext) if kind == 'stride' else None
                 if st is not None and max(st + [0]) > H: continue
-                c = SCase(inst, ext, st, sl, 'exhaustive-small'); c.ops = ['info', 'alias', 'mds']; c.h = rnd.choice([0, 10, 100]); c.id = rnd.randint(1, 9); cases.append(c)
+                c = SCase(inst, ext, st, sl, 'exhaustive-small'); c.ops = ['info', 'alias', 'mds'] if kind != 'ushift' else ['info', 'mds']; c.h = rnd.choice([0, 10, 100]); c.id = rnd.randint(1, 9); cases.append(c)
     # boundary: large extents, boundary starts, huge slice strides (all-dynamic instances, run-time slice kinds)
-    dyn = [i for i in insts if all(p is None for p in i[2]) and all(k in 'irfst' for k in i[3])]
+    dyn = [i for i in insts if all(p is None for p in i[2]) and all(k in 'irfst' for k in i[3]) and i[0] != 'ushift']
     nb = 500 if not thorough else 6000
     for _ in range(nb):
         inst = rnd.choice(dyn); kind, t, pat, ks = inst; r = len(ks); H = C.hi(t)
@@ -170,7 +170,7 @@ def gen_cases(seed, tier, insts):
         if st is not None and max(st) > H: continue
         c = SCase(inst, ext, st, sl, 'boundary'); c.ops = ['info'] + (['alias'] if size <= 64 else []); cases.append(c)
     # views of views: a second submdspan (strided slices) applied to the result of the first
-    run_time = [i for i in insts if all(k in 'irfst' for k in i[3]) and len(i[3]) >= 1]
+    run_time = [i for i in insts if all(k in 'irfst' for k in i[3]) and len(i[3]) >= 1 and i[0] != 'ushift']
     for _ in range(700 if not thorough else 6000):
         inst = rnd.choice(run_time); kind, t, pat, ks = inst; H = C.hi(t)
         ext = [p if p is not None else rnd.choice([0, 1, 2, 3, 4, 5, 6, 7]) for p in pat]
@@ -211,6 +211,22 @@ def gen_cases(seed, tier, insts):
             st = chain_strides(rnd, ext, (1,))
             if max(st) > H: continue
         c = SCase(inst, ext, st, sl, 'boundary-end'); c.ops = ['info']; cases.append(c)
+    # empty layout_stride sources with several zero extents and strides at the top of the type (admissible: zero extents count as one)
+    for _ in range(60 if not thorough else 600):
+        inst = rnd.choice([i for i in dyn if i[0] == 'stride' and len(i[3]) >= 2]); kind, t, pat, ks = inst; r = len(ks); H = C.hi(t)
+        ext = [rnd.choice([0, 0, 1]) for _ in range(r)]
+        if ext.count(0) < 2: ext[0] = ext[-1] = 0
+        st = [rnd.choice([H, H - 1, H // 2 + 1]) for _ in ext]
+        sl = []
+        for kk, e in zip(ks, ext):
+            if kk == 'i':
+                if e == 0: sl = None; break
+                sl.append('i:0')
+            elif kk in 'rt': sl.append('%s:0:%d' % (kk, e))
+            elif kk == 'f': sl.append('f')
+            else: sl.append('s:0:%d:1' % e)
+        if sl is None: continue
+        c = SCase(inst, ext, st, sl, 'empty-huge-strides'); c.ops = ['info']; cases.append(c)
     return cases
 
 def build_server(config='gcc20-ubsan', full=False):
